@@ -464,10 +464,14 @@ impl<'a, G: CurveProjective> GObjs<'a, G> {
 pub struct ThreadObjs<'a> {
     pub o1: GObjs<'a, G1>,
     pub o2: GObjs<'a, G2>,
+    /// caller-owned input buffers reused along the thread's history (a caller that formats its message
+    /// and domain-separation tag into the same buffers for every call: same address, new contents)
+    pub in_msg: Vec<u8>,
+    pub in_dst: Vec<u8>,
 }
 impl<'a> ThreadObjs<'a> {
     pub fn new() -> Self {
-        ThreadObjs { o1: GObjs::new(), o2: GObjs::new() }
+        ThreadObjs { o1: GObjs::new(), o2: GObjs::new(), in_msg: Vec::with_capacity(512), in_dst: Vec::with_capacity(512) }
     }
 }
 
@@ -542,6 +546,7 @@ fn group_op<'a, G: Grp>(
     sh_t256: &[Vec<G::Affine>],
     sctx: &[Mutex<Ctx<G>>],
     o: &mut GObjs<'a, G>,
+    scratch: (&mut Vec<u8>, &mut Vec<u8>),
     out: &mut Vec<u8>,
     claims: &mut Vec<Claim>,
 ) -> bool
@@ -903,7 +908,16 @@ where
         "h2c" | "e2c" => {
             let m = &sp().msgs[a(1) % sp().msgs.len()];
             let d = &sp().dsts[a(2) % sp().dsts.len()];
-            let p = G::h2c(a(0), m, d, name == "h2c");
+            let p = if a(3) % 2 == 1 {
+                // through the caller's reused input buffers
+                scratch.0.clear();
+                scratch.0.extend_from_slice(m);
+                scratch.1.clear();
+                scratch.1.extend_from_slice(d);
+                G::h2c(a(0), &scratch.0[..], &scratch.1[..], name == "h2c")
+            } else {
+                G::h2c(a(0), m, d, name == "h2c")
+            };
             img_proj(&p, out);
         }
         "insub" => {
@@ -940,11 +954,11 @@ pub fn eval<'a>(op: &Op, sh: &Shared, rs: &RunShared, tl: &mut ThreadObjs<'a>) -
     let p = sp();
     let a = |i: usize| op.arg(i);
     if let Some(name) = op.k.strip_prefix("g1_") {
-        if group_op::<G1>(name, op, &sh.t3_g1, &sh.t256_g1, &rs.sctx1, &mut tl.o1, &mut out, &mut claims) {
+        if group_op::<G1>(name, op, &sh.t3_g1, &sh.t256_g1, &rs.sctx1, &mut tl.o1, (&mut tl.in_msg, &mut tl.in_dst), &mut out, &mut claims) {
             return OpOut { image: out, claims };
         }
     } else if let Some(name) = op.k.strip_prefix("g2_") {
-        if group_op::<G2>(name, op, &sh.t3_g2, &sh.t256_g2, &rs.sctx2, &mut tl.o2, &mut out, &mut claims) {
+        if group_op::<G2>(name, op, &sh.t3_g2, &sh.t256_g2, &rs.sctx2, &mut tl.o2, (&mut tl.in_msg, &mut tl.in_dst), &mut out, &mut claims) {
             return OpOut { image: out, claims };
         }
     }
@@ -1034,8 +1048,15 @@ pub fn eval<'a>(op: &Op, sh: &Shared, rs: &RunShared, tl: &mut ThreadObjs<'a>) -
             t.img(&mut out);
         }
         "h2f" => {
-            let m = &p.msgs[a(2) % p.msgs.len()];
-            let d = &p.dsts[a(3) % p.dsts.len()];
+            let (m, d): (&[u8], &[u8]) = if a(5) % 2 == 1 {
+                tl.in_msg.clear();
+                tl.in_msg.extend_from_slice(&p.msgs[a(2) % p.msgs.len()]);
+                tl.in_dst.clear();
+                tl.in_dst.extend_from_slice(&p.dsts[a(3) % p.dsts.len()]);
+                (&tl.in_msg[..], &tl.in_dst[..])
+            } else {
+                (&p.msgs[a(2) % p.msgs.len()][..], &p.dsts[a(3) % p.dsts.len()][..])
+            };
             let cnt = 1 + a(4) % 3;
             match (a(0) % 4, a(1) % 2) {
                 (0, 0) => hash_to_field::<Fq, Xmd>(m, d, cnt).iter().for_each(|x| x.img(&mut out)),
